@@ -47,14 +47,8 @@ def _check_main(run, P):
              "path, appended to the output, merged, expanded or handed on before its "
              "variable is re-bound or the function returns - unless it is known to be "
              "a NullASTNode (and nothing else) on that path", minimum=2)
-    run.rule("C06.neg", "each stripped LogicalNot is paired with exactly one swap of "
-             "the arms", minimum=1)
-    run.rule("C06.same", "nested same-condition collapse takes then.then / "
-             "else_.else_ under type and condition-equality guards", minimum=2)
     run.rule("C06.merge", "adjacent conditionals are merged only under equal "
              "conditions, then-with-then and else-with-else, earlier first", minimum=3)
-    run.rule("C06.const", "condition is True selects then, is False selects else_",
-             minimum=2)
     run.rule("C06.post", "null-dropping pass, in every combination of children that are / "
              "become NullASTNodes (path-sensitive dataflow over sets of worlds): each handler "
              "returns a tree that runs exactly the simplified children that are not null, each "
@@ -70,9 +64,13 @@ def _check_main(run, P):
              "children of nested blocks", minimum=1)
 
     run.rule("C06.ends", "a work-list is consumed from one end only", minimum=1)
-    run.rule("C06.handlers", "handlers of the identity and the normalising pass: same "
-             "dataflow as C06.post - the returned tree runs the simplified children under "
-             "their guards", minimum=5)
+    run.rule("C06.handlers", "conditional / loop / block handlers of the identity, the "
+             "normalising and the merge pass, same dataflow as C06.post, with the condition "
+             "ranging over a flag under 0 - 3 negations and the constants, and each simplified "
+             "child over null / any node / a conditional on the same flag / on another flag: "
+             "the returned tree runs the same children under the same valuations (negation "
+             "parity, constant selection, same-condition collapse); helpers of the repository "
+             "are followed into", minimum=6)
     run.rule("C06.flagrule", "the single-definition rule for condition flags, which "
              "makes merging sound, is applied to every phase and counts writer "
              "statements (shared with C10.calls / C10.flag)", minimum=8)
@@ -84,10 +82,8 @@ def _check_main(run, P):
     run.do(_splice_and_pop, run, P, m)
     run.do(_keep, run, P)
     run.do(_lost, run, P)
-    run.do(_ifthenelse, run, P)
     run.do(_merge, run, P)
     run.do(_handlers, run, P)
-    run.do(_collapse_all, run, P)
     run.do(_identity, run, P)
     run.do(_flat, run, P)
 
@@ -595,98 +591,6 @@ def _ctor_args(P, call, clsname):
     return out
 
 
-def _ifthenelse(run, P):
-    f = P.func(f"{MOD}.ASTSimplifyMapper.map_IfThenElse")
-    # final constructor: which variables fill the slots?
-    rets = [s for s in func_body_stmts(f.node) if isinstance(s, ast.Return)
-            and isinstance(s.value, ast.Call) and dotted(s.value.func) == "IfThenElse"]
-    if len(rets) != 1:
-        raise AnalysisError("map_IfThenElse: single 'return IfThenElse(...)' expected")
-    slots = _ctor_args(P, rets[0].value, "IfThenElse")
-    try:
-        v_cond, v_then, v_else = slots["condition"].id, slots["then"].id, slots["else_"].id
-    except (KeyError, AttributeError):
-        raise AnalysisError("map_IfThenElse: return IfThenElse(<names>) expected")
-    # the arm variables must come from rec(expr.then) / rec(expr.else_)
-    for var_, attr in ((v_then, "then"), (v_else, "else_")):
-        srcs = [s for s in func_body_stmts(f.node) if isinstance(s, ast.Assign)
-                and len(s.targets) == 1 and isinstance(s.targets[0], ast.Name)
-                and s.targets[0].id == var_ and isinstance(s.value, ast.Call)
-                and dotted(s.value.func) == "self.rec"]
-        ok = len(srcs) == 1 and isinstance(srcs[0].value.args[0], ast.Attribute) \
-            and srcs[0].value.args[0].attr == attr
-        run.ob("C06.same", f, srcs[0] if srcs else f.node, ok,
-               construct=f"{var_} = self.rec(expr.{attr}) fills the '{attr}' slot",
-               why="arms must keep their polarity")
-
-    # C06.const
-    for const, attr in ((True, "then"), (False, "else_")):
-        hit = None
-        for n in ast.walk(f.node):
-            if isinstance(n, ast.If) and isinstance(n.test, ast.Compare) \
-                    and len(n.test.ops) == 1 and isinstance(n.test.ops[0], ast.Is) \
-                    and isinstance(n.test.comparators[0], ast.Constant) \
-                    and n.test.comparators[0].value is const \
-                    and isinstance(n.test.left, ast.Attribute) and n.test.left.attr == "condition":
-                hit = n
-        ok = False
-        if hit is not None and hit.body and isinstance(hit.body[-1], ast.Return):
-            v = hit.body[-1].value
-            ok = isinstance(v, ast.Call) and dotted(v.func) == "self.rec" and \
-                isinstance(v.args[0], ast.Attribute) and v.args[0].attr == attr
-        run.ob("C06.const", f, hit if hit is not None else f.node, ok,
-               construct=f"condition is {const} -> self.rec(expr.{attr})",
-               why="a constant guard must select the arm that would run")
-
-    # C06.neg
-    loops = [n for n in ast.walk(f.node) if isinstance(n, ast.While)
-             and isinstance(n.test, ast.Call) and dotted(n.test.func) == "isinstance"
-             and "LogicalNot" in ast.unparse(n.test.args[1])]
-    if len(loops) != 1:
-        raise AnalysisError("map_IfThenElse: negation-stripping loop not found")
-    lp = loops[0]
-    cv = lp.test.args[0].id if isinstance(lp.test.args[0], ast.Name) else None
-    strips = [s for s in lp.body if isinstance(s, ast.Assign) and len(s.targets) == 1
-              and isinstance(s.targets[0], ast.Name) and s.targets[0].id == cv
-              and isinstance(s.value, ast.Attribute) and s.value.attr == "child"
-              and isinstance(s.value.value, ast.Name) and s.value.value.id == cv]
-    swaps = []
-    for s in lp.body:
-        if isinstance(s, ast.Assign) and len(s.targets) == 1 \
-                and isinstance(s.targets[0], ast.Tuple) and len(s.targets[0].elts) == 2 \
-                and isinstance(s.value, ast.Tuple) and len(s.value.elts) == 2:
-            t = [dotted(e) for e in s.targets[0].elts]
-            v = [dotted(e) for e in s.value.elts]
-            if t == v[::-1] and set(t) == {v_then, v_else}:
-                swaps.append(s)
-    from .util import core
-    lb = core(lp.body, lambda s_: any(s_ is x for x in strips + swaps))
-    ok = cv == v_cond and len(strips) == 1 and len(swaps) == 1 and len(lb) == 2
-    run.ob("C06.neg", f, lp, ok,
-           construct=f"while isinstance({cv}, LogicalNot): strip x{len(strips)}, swap x{len(swaps)}",
-           why="stripping a negation without swapping the arms (or swapping twice) "
-               "inverts the conditional")
-
-    # C06.same
-    for var_, attr in ((v_then, "then"), (v_else, "else_")):
-        sites = [s for s in ast.walk(f.node) if isinstance(s, ast.Assign)
-                 and len(s.targets) == 1 and isinstance(s.targets[0], ast.Name)
-                 and s.targets[0].id == var_ and isinstance(s.value, ast.Attribute)
-                 and isinstance(s.value.value, ast.Name) and s.value.value.id == var_]
-        for s in sites:
-            parent = _enclosing_if(f.node, s)
-            t = ast.unparse(parent.test) if parent is not None else ""
-            guard_ok = parent is not None and \
-                f"isinstance({var_}, IfThenElse)" in t and \
-                (f"{v_cond} == {var_}.condition" in t or f"{var_}.condition == {v_cond}" in t) \
-                and isinstance(parent.test, ast.BoolOp) and isinstance(parent.test.op, ast.And)
-            ok = guard_ok and s.value.attr == attr
-            run.ob("C06.same", f, s, ok,
-                   construct=f"{norm(s)} under {t!r}",
-                   why=f"inside the {attr} arm of 'if c' a nested 'if c' takes its "
-                       f"{attr} arm; any other choice changes which statements run")
-
-
 def _enclosing_if(root, target):
     best = None
 
@@ -775,13 +679,16 @@ def _handlers(run, P):
     if len(with_children) < 4:
         raise AnalysisError(f"node classes with children: {sorted(with_children)}")
     passes = (("ASTIdentityMapper", False), ("ASTPreSimplifyMapper", False),
-              ("ASTPostSimplifyMapper", True))
+              ("ASTSimplifyMapper", False), ("ASTPostSimplifyMapper", True))
     for cname, last in passes:
         C = P.cls(f"{MOD}.{cname}")
         for name, f in sorted(C.methods.items()):
             top = name == "__call__"
             if not top and not (name.startswith("map_") and name[4:] in with_children):
                 continue
+            if cname == "ASTSimplifyMapper" and (top or any(
+                    x.lstrip("*") in listy for x in slots_of.get(name[4:], []))):
+                continue      # the merge pass's map_Block is decided by C06.keep / lost / merge
             found, n_ret, n_w, kinds = c06_post.analyse(P, f, name[4:] if not top else None, single, listy,
                                                  slots_of, top=top, want_nullfree=last)
             rule = "C06.post" if last else "C06.handlers"
@@ -819,44 +726,6 @@ def _handlers(run, P):
                construct=f"{name} has no handler in the last pass: the first pass rewrites it and "
                          f"the merge pass builds none",
                why=f"the inherited handler would keep {name}(c, NullASTNode())")
-
-
-def _collapse_all(run, P):
-    """In every handler of the three passes: an arm variable may only be
-    replaced by the same-named arm of the node it holds (then <- then.then,
-    else_ <- else_.else_), under a condition-equality guard."""
-    for cname in ("ASTPreSimplifyMapper", "ASTSimplifyMapper", "ASTPostSimplifyMapper"):
-        C = P.cls(f"{MOD}.{cname}")
-        for name, f in sorted(C.methods.items()):
-            if name not in ("map_IfThenElse", "map_IfThen"):
-                continue
-            arm_of = {}
-            for s_ in func_body_stmts(f.node):
-                if isinstance(s_, ast.Assign) and len(s_.targets) == 1 \
-                        and isinstance(s_.targets[0], ast.Name) and isinstance(s_.value, ast.Call) \
-                        and dotted(s_.value.func) == "self.rec" and s_.value.args \
-                        and isinstance(s_.value.args[0], ast.Attribute) \
-                        and s_.value.args[0].attr in ("then", "else_"):
-                    arm_of[s_.targets[0].id] = s_.value.args[0].attr
-            for s_ in ast.walk(f.node):
-                if isinstance(s_, ast.Assign) and len(s_.targets) == 1 \
-                        and isinstance(s_.targets[0], ast.Name) and s_.targets[0].id in arm_of \
-                        and isinstance(s_.value, ast.Attribute) \
-                        and isinstance(s_.value.value, ast.Name) \
-                        and s_.value.value.id == s_.targets[0].id:
-                    v = s_.targets[0].id
-                    parent = _enclosing_if(f.node, s_)
-                    t = ast.unparse(parent.test) if parent is not None else ""
-                    guarded = f"{v}.condition" in t and "==" in t
-                    # arms may have been swapped by negation stripping: the
-                    # polarity rule (C06.neg) covers that; here slot names must agree
-                    ok = guarded and s_.value.attr == arm_of[v]
-                    run.ob("C06.same", f, s_, ok,
-                           construct=f"{cname}.{name}: {norm(s_)} under {t!r} "
-                                     f"({v} holds the '{arm_of[v]}' arm)",
-                           why=f"inside the {arm_of[v]} arm of 'if c' a nested test of c "
-                               f"contributes its {arm_of[v]} arm (or nothing); taking the "
-                               f"other arm runs statements whose guard is false")
 
 
 def _enclosing_test(root, target):
@@ -946,6 +815,6 @@ def _flat(run, P):
 
 
 def check(run, P):
-    _check_main(run, P)
+    run.do(_check_main, run, P)
     from . import generic
     generic.lints(run, P, "C06")
